@@ -74,6 +74,7 @@ fn cmd_worker(args: &[String]) -> i32 {
     let meta = registry::meta(&prop).expect("unknown property");
     let known = Known::load(&prop);
     let mut inflight = InFlight::new(Some(&infl));
+    svcore::campaign::start_watchdog(120);
     let mut reports: Vec<WorkerReport> = vec![];
     for sub in &meta.subs {
         let total = if tier == Tier::Quick { sub.quick } else { sub.thorough };
@@ -246,6 +247,16 @@ fn cmd_check(args: &[String]) -> i32 {
                     }
                 }
                 None => infra_errors.push(format!("worker {i} wrote no report: {stderr}")),
+            }
+        } else if status.code() == Some(42) {
+            // one case ran longer than the per-case watchdog
+            if let Some(v) = registry::timeout_is_violation(&prop) {
+                let inflight_txt = std::fs::read_to_string(&infl).unwrap_or_default();
+                let case: Value = serde_json::from_str(&inflight_txt).unwrap_or(Value::Null);
+                let p = write_replay(&prop, &format!("timeout-w{i}"), &json!({"property": prop, "level": "case", "engine": case["engine"], "case": case["case"], "kind": "non_termination", "detail": v}));
+                violations.push(Violation { replay: p, detail: v.to_string() });
+            } else {
+                infra_errors.push(format!("worker {i}: one case exceeded the per-case watchdog (inconclusive)"));
             }
         } else if status.code().is_none() || registry::crash_exit_is_violation(status.code()) {
             // died on a signal (stack overflow, sanitizer abort): the in-flight case is the reproduction
